@@ -462,7 +462,23 @@ func checkCmp(c CmpCase) hx.Verdict {
 	if !ok {
 		return hx.Bad("", "[min, max] of %s is %s, expected [%s, %s] (or elements equal to them)", strings.TrimSpace(d2), got, sorted[0].Y, sorted[len(sorted)-1].Y)
 	}
-	return hx.OK(true, d2+doc, "cmp_min_max")
+	// the same sequence with nulls in it: null is the smallest value of the order, wherever it sits
+	mid := len(ys) / 2
+	withNull := append(append(append([]string{}, ys[:mid]...), "null"), ys[mid:]...)
+	if len(ys)%2 == 0 {
+		withNull = append(withNull, "~")
+	}
+	d3 := "[" + strings.Join(withNull, ", ") + "]\n"
+	y3 := hx.Run("[min, max]", d3, hx.Opts{Out: "yaml"})
+	if v := bad(y3, d3); v != nil {
+		return *v
+	}
+	gv3, gerr3 := hx.YAMLToModel(y3.Out)
+	hi := val(sorted[len(sorted)-1])
+	if gerr3 != nil || len(gv3) != 1 || gv3[0].K != model.Seq || len(gv3[0].Elem) != 2 || gv3[0].Elem[0].K != model.Null || !model.Equal(gv3[0].Elem[1], hi) {
+		return hx.Bad("", "[min, max] of %s is %s, expected [null, %s]: null is the first value of the sort order", strings.TrimSpace(d3), strings.TrimSpace(y3.Out), sorted[len(sorted)-1].Y)
+	}
+	return hx.OK(true, d2+doc, "cmp_min_max", "min_max_with_null")
 }
 
 // ---------------------------------------------------------------------------
